@@ -113,11 +113,107 @@ func chainEdgeClass(c *Cond) string {
 	}
 	// match: the boolean result of a matchKeyFunc call is true
 	if c.Op == token.ILLEGAL && c.Pos {
-		if call, idx := callResult(c.V); call != nil && idx == 0 && isMatchKeyCall(call) {
+		if matchDerived(c.V, 0) {
 			return "match"
 		}
 	}
 	return ""
+}
+
+// matchDerived: the boolean v can be true only when a key callback (matchKeyFunc) reported a match: it is the
+// callback's boolean result, or the boolean result of a helper every return of which hands back false or such a value.
+func matchDerived(v ssa.Value, d int) bool {
+	if d > 3 {
+		return false
+	}
+	v = strip(v)
+	if ph, ok := v.(*ssa.Phi); ok {
+		some := false
+		for _, e := range ph.Edges {
+			if bv, isc := constBool(strip(e)); isc && !bv {
+				continue
+			}
+			if !matchDerived(e, d+1) {
+				return false
+			}
+			some = true
+		}
+		return some
+	}
+	call, idx := callResult(v)
+	if call == nil {
+		return false
+	}
+	if isMatchKeyCall(call) {
+		return idx == 0
+	}
+	g := call.Call.StaticCallee()
+	if g == nil || g.Blocks == nil || idx < 0 || g.Pkg == nil || !strings.HasPrefix(g.Pkg.Pkg.Path(), modPath) {
+		return false
+	}
+	some := false
+	for _, ret := range returnsOf(g) {
+		if idx >= len(ret.Results) {
+			return false
+		}
+		o := strip(retOperand(ret, idx))
+		if bv, isc := constBool(o); isc && !bv {
+			continue
+		}
+		if !matchDerived(o, d+1) {
+			return false
+		}
+		some = true
+	}
+	return some
+}
+
+// carriesCallbackErr: the error value e is non-nil whenever a key callback below it returned an error: it is the
+// callback's error result, or the error result of a helper in which every return reachable from a callback call
+// without passing that callback's "err == nil" edge returns the callback's error.
+func carriesCallbackErr(e ssa.Value, d int) bool {
+	if d > 3 {
+		return false
+	}
+	call, idx := callResult(e)
+	if call == nil {
+		return false
+	}
+	if isMatchKeyCall(call) {
+		return idx == 1
+	}
+	g := call.Call.StaticCallee()
+	if g == nil || g.Blocks == nil || idx < 0 || idx != errResultIndex(g) || g.Pkg == nil || !strings.HasPrefix(g.Pkg.Pkg.Path(), modPath) {
+		return false
+	}
+	n := 0
+	okAll := true
+	instrsOf(g, func(in ssa.Instruction) {
+		mk, ok := in.(*ssa.Call)
+		if !ok || !isMatchKeyCall(mk) {
+			return
+		}
+		n++
+		isMkErr := func(v ssa.Value) bool {
+			c, i := callResult(v)
+			return c == mk && i == 1
+		}
+		w := &Walk{Fn: g, SkipEdge: func(b *ssa.BasicBlock, k int) bool {
+			c := edgeCond(b, k)
+			if c == nil {
+				return false
+			}
+			x := errNilEdge(c)
+			return x != nil && isMkErr(x)
+		}}
+		w.From(mk)
+		for _, ret := range returnsOf(g) {
+			if w.Visited[ret] && !isMkErr(retOperand(ret, idx)) {
+				okAll = false
+			}
+		}
+	})
+	return n > 0 && okAll
 }
 
 func ruleC01ChainExit(r *Run, p *Program, rule string) {
@@ -363,8 +459,7 @@ func ruleC01Count(r *Run, p *Program, rule string) {
 				if c.Op != token.ILLEGAL || c.Pos {
 					return false
 				}
-				call, idx := callResult(c.V)
-				return call != nil && idx == 1 && calleeKey(&call.Call) == "(*pogreb.index).findInsertionBucket"
+				return boolFromCall(c.V, "(*pogreb.index).findInsertionBucket")
 			})
 			r.check(notOverwrite, rule, k+":increment", pos,
 				"numKeys++ is reachable only when findInsertionBucket reported 'not an existing key'",
@@ -447,8 +542,7 @@ func ruleC01Count(r *Run, p *Program, rule string) {
 				if c == nil || c.Op != token.ILLEGAL || !c.Pos {
 					return false
 				}
-				call, idx := callResult(c.V)
-				return call != nil && idx == 1 && calleeKey(&call.Call) == "(*pogreb.index).findInsertionBucket"
+				return boolFromCall(c.V, "(*pogreb.index).findInsertionBucket")
 			}}
 		w.From()
 		okAll := true
@@ -480,12 +574,15 @@ func ruleC01OverwriteFlag(r *Run, p *Program, rule string) {
 	r.fn(funcKey(f))
 	n := 0
 	for _, ret := range returnsOf(f) {
-		if len(ret.Results) != 3 || isFailureReturn(f, ret) {
+		if isFailureReturn(f, ret) {
+			continue
+		}
+		bv, isConst, found := boolFlagOfReturn(ret)
+		if !found {
 			continue
 		}
 		n++
 		underMatch := controlledBy(f, ret, func(c *Cond) bool { return chainEdgeClass(c) == "match" })
-		bv, isConst := constBool(ret.Results[1])
 		switch {
 		case underMatch:
 			r.check(isConst && bv, rule, funcKey(f)+":flag-on-match", p.Pos(instrPos(ret)),
